@@ -222,6 +222,59 @@ impl Obs for &Plain {
     }
 }
 
+/// `Clone` but neither `Copy` nor `Drop`: a clone is distinguishable from a bitwise copy
+/// (generation 1, counted in the ledger). Used by the `ClonedStampSlice` kind.
+pub struct Stamp {
+    pub id: u32,
+    pub run: u32,
+    pub gen: u8,
+    pub payload: u64,
+}
+
+impl Clone for Stamp {
+    fn clone(&self) -> Self {
+        {
+            let _p = alloc::pause();
+            let mut l = ledger();
+            l.clone_calls += 1;
+            if (self.id as usize) < l.n && self.run == l.run {
+                l.clones[self.id as usize] += 1;
+                // there is no destructor to count: balance the clone ledger right away
+                l.clone_drops[self.id as usize] += 1;
+            }
+        }
+        sim::sched_point("clone");
+        Stamp {
+            id: self.id,
+            run: self.run,
+            gen: 1,
+            payload: self.payload,
+        }
+    }
+}
+
+impl Obs for Stamp {
+    fn obs(&self) -> ItemObs {
+        ItemObs {
+            raw: self.id as u64,
+            payload: self.payload,
+            addr: 0,
+            gen: self.gen,
+        }
+    }
+}
+
+impl Obs for &Stamp {
+    fn obs(&self) -> ItemObs {
+        ItemObs {
+            raw: self.id as u64,
+            payload: self.payload,
+            addr: *self as *const Stamp as usize,
+            gen: self.gen,
+        }
+    }
+}
+
 impl Obs for usize {
     fn obs(&self) -> ItemObs {
         ItemObs {
